@@ -15,8 +15,10 @@ import (
 	"encoding/json"
 	"errors"
 	"fmt"
+	"io"
 	"strings"
 	"sync"
+	"testing/iotest"
 
 	"github.com/notaryproject/notation-go"
 	"github.com/notaryproject/notation-go/verifier"
@@ -270,6 +272,7 @@ type replayCase struct {
 	Level    vt.Level           `json:"level"`
 	Store    int                `json:"store"`
 	PM       bool               `json:"plugin_manager"`
+	Reader   int                `json:"reader_shape"`
 }
 
 var ctx = context.Background()
@@ -296,7 +299,45 @@ func runOCI(r *hx.Run, w *world, e *env, presentedName string, presented ocispec
 	return "accepted"
 }
 
-func runBlob(r *hx.Run, w *world, e *env, content []byte, statedMT string, required map[string]string, lv vt.Level, sa storeAnswer, pm bool, named bool) string {
+// readerShapes are the ways an io.Reader may legally deliver the same bytes (environment answers of the
+// blob reader): all at once, one byte per call, half of what is asked for, and the final chunk together with io.EOF.
+var readerShapes = []string{"plain", "one-byte", "half", "data-with-eof", "two-chunks-second-with-eof"}
+
+// twoChunk delivers the first half, then the rest together with io.EOF.
+type twoChunk struct {
+	b    []byte
+	call int
+}
+
+func (t *twoChunk) Read(p []byte) (int, error) {
+	h := len(t.b) / 2
+	switch t.call {
+	case 0:
+		t.call++
+		return copy(p, t.b[:h]), nil
+	case 1:
+		t.call++
+		return copy(p, t.b[h:]), io.EOF
+	}
+	return 0, io.EOF
+}
+
+func shapedReader(content []byte, shape int) io.Reader {
+	base := bytes.NewReader(content)
+	switch shape % len(readerShapes) {
+	case 1:
+		return iotest.OneByteReader(base)
+	case 2:
+		return iotest.HalfReader(base)
+	case 3:
+		return iotest.DataErrReader(base)
+	case 4:
+		return &twoChunk{b: content}
+	}
+	return base
+}
+
+func runBlob(r *hx.Run, w *world, e *env, content []byte, statedMT string, required map[string]string, lv vt.Level, sa storeAnswer, pm bool, named bool, shape int) string {
 	_, bv, err := newVerifier(w, lv, sa, pm)
 	if err != nil {
 		r.Infra("verifier construction failed for level %v: %v", lv, err)
@@ -307,13 +348,13 @@ func runBlob(r *hx.Run, w *world, e *env, content []byte, statedMT string, requi
 	if named {
 		o.TrustPolicyName = "p"
 	}
-	_, outcome, verr := notation.VerifyBlob(ctx, bv, bytes.NewReader(content), e.Bytes, o)
+	_, outcome, verr := notation.VerifyBlob(ctx, bv, shapedReader(content, shape), e.Bytes, o)
 	if verr != nil {
 		return "rejected"
 	}
 	if why := judge(e, outcome, ocispec.Descriptor{}, content, true, statedMT, required); why != "" {
-		r.Violation("blob/"+e.Family+"/"+why, fmt.Sprintf("VerifyBlob succeeded for envelope %s presented with %d bytes mt=%q required=%s level=%v store=%d pm=%v", e.Label, len(content), statedMT, vt.MapString(required), lv, sa, pm),
-			replayCase{Family: e.Family, Label: e.Label, Format: e.Format, Envelope: base64.StdEncoding.EncodeToString(e.Bytes), Blob: true, Entry: "notation.VerifyBlob", Content: base64.StdEncoding.EncodeToString(content), StatedMT: statedMT, Required: required, Level: lv, Store: int(sa), PM: pm})
+		r.Violation("blob/"+e.Family+"/"+why, fmt.Sprintf("VerifyBlob succeeded for envelope %s presented with %d bytes (reader %s) mt=%q required=%s level=%v store=%d pm=%v", e.Label, len(content), readerShapes[shape%len(readerShapes)], statedMT, vt.MapString(required), lv, sa, pm),
+			replayCase{Reader: shape, Family: e.Family, Label: e.Label, Format: e.Format, Envelope: base64.StdEncoding.EncodeToString(e.Bytes), Blob: true, Entry: "notation.VerifyBlob", Content: base64.StdEncoding.EncodeToString(content), StatedMT: statedMT, Required: required, Level: lv, Store: int(sa), PM: pm})
 		return "violation"
 	}
 	return "accepted"
@@ -336,7 +377,7 @@ func main() {
 		var res string
 		if c.Blob {
 			content, _ := base64.StdEncoding.DecodeString(c.Content)
-			res = runBlob(r, w, e, content, c.StatedMT, c.Required, c.Level, storeAnswer(c.Store), c.PM, true)
+			res = runBlob(r, w, e, content, c.StatedMT, c.Required, c.Level, storeAnswer(c.Store), c.PM, true, c.Reader)
 		} else {
 			res = runOCI(r, w, e, "replay", c.Desc, c.Required, c.Level, storeAnswer(c.Store), c.PM)
 		}
@@ -384,7 +425,7 @@ func main() {
 				Bytes: w.sign(f, s, forge.PayloadFor(ociDesc("A")), nil, "application/json")})
 			// blobs
 			h := forge.HashOf(w.chains[s].Leaf().Key.Public())
-			for ci, content := range [][]byte{blobA, blobB} {
+			for ci, content := range [][]byte{blobA, blobB, {}, blobA[:len(blobA)/2]} {
 				for mi, m := range signedMetas[:2] {
 					for _, smt := range []string{"application/octet-stream", "text/plain"} {
 						freshBlob = append(freshBlob, &env{Label: fmt.Sprintf("freshblob/%s/%s/c%d/meta%d/%s", short(f), s, ci, mi, smt), Format: f, Family: "fresh-blob", Blob: true,
@@ -392,7 +433,7 @@ func main() {
 					}
 				}
 				// blob signed with the wrong hash (sha256 digest under a P-384 key): digest of the right content, wrong algorithm
-				if s == "T2" {
+				if s == "T2" && ci < 2 {
 					freshBlob = append(freshBlob, &env{Label: fmt.Sprintf("freshblob-wronghash/%s/%s/c%d", short(f), s, ci), Format: f, Family: "fresh-blob-wronghash", Blob: true,
 						Bytes: w.sign(f, s, forge.PayloadFor(blobDesc(content, "application/octet-stream", crypto.SHA256)), nil, "")})
 				}
@@ -448,11 +489,16 @@ func main() {
 	}, nil)
 
 	// blobs
-	blobContents := [][]byte{blobA, blobB, append(append([]byte{}, blobA...), 'x'), {}}
+	blobContents := [][]byte{blobA, blobB, append(append([]byte{}, blobA...), 'x'), {}, blobA[:len(blobA)/2]}
+	r.Extra["reader_shapes"] = readerShapes
 	statedMTs := []string{"", "application/octet-stream", "text/plain"}
 	var bjobs []job
+	blobLevels := levels
+	if !r.Thorough() {
+		blobLevels = fewLevels // quick: named levels + audit/all-log/skip for the blob family
+	}
 	for _, e := range freshBlob {
-		for _, lv := range levels {
+		for _, lv := range blobLevels {
 			bjobs = append(bjobs, job{e, lv})
 		}
 	}
@@ -462,10 +508,18 @@ func main() {
 			for _, smt := range statedMTs {
 				for ri, req := range requiredMetas[:4] {
 					for _, sa := range stores {
-						res := runBlob(r, w, j.e, content, smt, req, j.lv, sa, false, (ci+ri)%2 == 0)
-						r.Outcome("blob/" + j.e.Family + ":" + res)
-						if res == "accepted" {
-							r.Nontrivial(fmt.Sprintf("%s|c%d|%s|%d|%v|%d", j.e.Label, ci, smt, ri, j.lv, sa))
+						// every reader shape for the trusted store without required metadata, a rotating shape elsewhere
+						shapes := []int{(ci + ri + int(sa)) % len(readerShapes)}
+						if sa == storeTrusted && ri == 0 {
+							shapes = []int{0, 1, 2, 3, 4}
+						}
+						var res string
+						for _, sh := range shapes {
+							res = runBlob(r, w, j.e, content, smt, req, j.lv, sa, false, (ci+ri)%2 == 0, sh)
+							r.Outcome("blob/" + j.e.Family + ":" + res)
+							if res == "accepted" {
+								r.Nontrivial(fmt.Sprintf("%s|c%d|%s|%d|%v|%d|r%d", j.e.Label, ci, smt, ri, j.lv, sa, sh))
+							}
 						}
 						if j.e.Family == "fresh-blob" && strings.Contains(j.e.Label, "/T/c0/meta1/application/octet-stream") && ci == 0 && smt != "text/plain" && ri < 2 && sa == storeTrusted {
 							cmu.Lock()
